@@ -103,12 +103,15 @@ class Model:
     def __init__(self, flavor='F'):
         self.flavor = flavor
         self.txns = []
+        self.undo_floor = 0     # the first undo_floor transactions belong
+        #                         to a layer that cannot be undone
 
     def copy_prefix(self, n):
         """Model of the first n transactions (records are shared, read-only:
         a back record only ever points to an earlier record)."""
         m = Model(self.flavor)
         m.txns = self.txns[:n]
+        m.undo_floor = self.undo_floor
         return m
 
     # -- construction -----------------------------------------------------
@@ -226,7 +229,7 @@ class Model:
 
     def undoLog(self):
         out = []
-        for t in reversed(self.txns):
+        for t in reversed(self.txns[self.undo_floor:]):
             if t.status == 'p':
                 break
             if t.status != ' ':
